@@ -1,11 +1,179 @@
-import Faithful.Lib.CompactIndex
+import Faithful.Lib.CompactIndexProofs
 import Faithful.Generated.IntFns
 
+/-!
+# C04 — compact hash index: every inserted key is found with its value
+
+Statements are about `CI.buildA` / `CI.lookupA` (Faithful/Lib/CompactIndex.lean), the abstract layer of the
+model the driver executes; the byte layer (`CI.encode`, `CI.openB`, `CI.lookupB`) is tied to the real files
+byte for byte, and to the abstract layer answer for answer (`MODEL-LAYERS-DISAGREE` marker), by the
+correspondence run.  All theorems hold for an arbitrary pair of hash functions `hf`, so they never rely on
+xxhash being collision free: a bad hash can only make `buildA` fail.
+-/
 namespace C04
-open CI
+open CI B
 
 /-- tie: the translated Go `hashUint64` is the model's Murmur finaliser -/
 theorem gen_hashUint64_eq_model : Generated.hashUint64 = H.hashUint64 := by
   funext x; rfl
+
+/-- the two legacy copies use the same finaliser -/
+theorem gen_legacy_hashUint64_eq_model :
+    Generated.legacy8HashUint64 = H.hashUint64 ∧ Generated.legacy36HashUint64 = H.hashUint64 := by
+  constructor <;> (funext x; rfl)
+
+/-- **every inserted key is found with exactly its value** — any key set, any value size the builder accepts,
+    any declared count, any metadata, any number of buckets and any bucket population. -/
+theorem build_lookup (hf : HF) (vs declared : Nat) (m : List (Bytes × Bytes)) (kvs : List KV) (ix : IndexA)
+    (h : buildA hf vs declared m kvs = .ok ix) (kv : KV) (hkv : kv ∈ kvs) :
+    lookupA hf ix kv.key = .found kv.val := by
+  obtain ⟨_, _, _, hbk, _⟩ := buildA_ok hf vs declared m kvs ix h
+  obtain ⟨i, hi, hlt⟩ := hbk kv hkv
+  obtain ⟨b, hb, hseal⟩ := bucket_of_build hf vs declared m kvs ix h i hlt
+  have hin : kv ∈ bucketKVs hf ix.numBuckets kvs i := by
+    unfold bucketKVs
+    rw [List.mem_filter]
+    exact ⟨hkv, by simp [hi]⟩
+  have := sealBucket_lookup hf _ b hseal kv hin
+  unfold lookupA
+  simp only [hi, hb, this]
+
+/-- a hit is always an inserted pair from the same bucket with the same 24-bit in-bucket hash
+    (no answer is invented; used by C03) -/
+theorem lookup_sound (hf : HF) (vs declared : Nat) (m : List (Bytes × Bytes)) (kvs : List KV) (ix : IndexA)
+    (h : buildA hf vs declared m kvs = .ok ix) (key v : Bytes) (hl : lookupA hf ix key = .found v) :
+    ∃ kv ∈ kvs, ∃ i b, hf.bucket key ix.numBuckets = some i ∧ hf.bucket kv.key ix.numBuckets = some i ∧
+      ix.buckets[i]? = some b ∧ hf.entry b.nonce kv.key = hf.entry b.nonce key ∧ kv.val = v := by
+  unfold lookupA at hl
+  split at hl
+  · cases hl
+  · rename_i i hi
+    split at hl
+    · cases hl
+    · rename_i b hb
+      split at hl
+      · rename_i v' hs
+        simp only [Look.found.injEq] at hl; subst hl
+        have hlt : i < ix.numBuckets := by
+          obtain ⟨_, _, _, _, hall⟩ := buildA_ok hf vs declared m kvs ix h
+          have hlen := (allSome_get _ _ hall)
+          have : i < ix.buckets.length := by
+            have := List.getElem?_eq_some_iff.mp hb
+            exact this.1
+          -- buckets has exactly numBuckets entries
+          have hl2 : ix.buckets.length = ix.numBuckets := by
+            have : ∀ (l : List (Option BucketA)) (r : List BucketA), allSome l = some r → r.length = l.length := by
+              intro l
+              induction l with
+              | nil => intro r hr; simp [allSome] at hr; subst hr; rfl
+              | cons a l ih =>
+                intro r hr
+                cases a with
+                | none => simp [allSome] at hr
+                | some a =>
+                  simp only [allSome] at hr
+                  split at hr
+                  · cases hr
+                  · rename_i l' hl'
+                    simp only [Option.some.injEq] at hr; subst hr
+                    simp [ih l' hl']
+            simpa using this _ _ hall
+          omega
+        obtain ⟨b', hb', hseal⟩ := bucket_of_build hf vs declared m kvs ix h i hlt
+        have : b' = b := by rw [hb] at hb'; exact (Option.some.inj hb').symm
+        subst this
+        obtain ⟨kv, hkv, he, hv⟩ := sealBucket_sound hf _ b' hseal _ _ hs
+        unfold bucketKVs at hkv
+        rw [List.mem_filter] at hkv
+        refine ⟨kv, hkv.1, i, b', hi, ?_, hb, he, hv⟩
+        simpa using hkv.2
+      · cases hl
+
+/-- **failing loudly**: the same key inserted twice (with any values) can never produce an index -/
+theorem duplicate_key_fails (hf : HF) (vs declared : Nat) (m : List (Bytes × Bytes)) (pre mid post : List KV)
+    (k : Bytes) (v1 v2 : Bytes) (ix : IndexA) :
+    buildA hf vs declared m (pre ++ ⟨k, v1⟩ :: mid ++ ⟨k, v2⟩ :: post) ≠ .ok ix := by
+  intro h
+  obtain ⟨_, _, _, hbk, hall⟩ := buildA_ok hf vs declared m _ ix h
+  obtain ⟨i, hi, hlt⟩ := hbk ⟨k, v1⟩ (by simp)
+  obtain ⟨b, _, hseal⟩ := bucket_of_build hf vs declared m _ ix h i hlt
+  -- in bucket i both copies are present: every nonce collides
+  unfold sealBucket at hseal
+  split at hseal
+  · cases hseal
+  · rename_i nonce sorted hm
+    obtain ⟨hperm, hstrict⟩ := mine_strict hf _ nonce sorted hm
+    have hnd := strict_nodup sorted hstrict
+    have hnd2 : ((hashed hf nonce (bucketKVs hf ix.numBuckets (pre ++ ⟨k, v1⟩ :: mid ++ ⟨k, v2⟩ :: post) i)).map (·.1)).Nodup :=
+      (hperm.map _).nodup_iff.mp hnd
+    -- the filtered list contains the two copies at distinct positions
+    have hfilter : bucketKVs hf ix.numBuckets (pre ++ ⟨k, v1⟩ :: mid ++ ⟨k, v2⟩ :: post) i
+        = bucketKVs hf ix.numBuckets pre i ++ ⟨k, v1⟩ :: (bucketKVs hf ix.numBuckets mid i ++ ⟨k, v2⟩ :: bucketKVs hf ix.numBuckets post i) := by
+      unfold bucketKVs
+      simp [List.filter_append, List.filter_cons, hi]
+    rw [hfilter] at hnd2
+    unfold hashed at hnd2
+    simp only [List.map_append, List.map_cons, List.map_map] at hnd2
+    have := (List.nodup_append.mp hnd2).2.1
+    rw [List.nodup_cons] at this
+    apply this.1
+    simp
+
+/-- parameters the format cannot hold are refused by the constructor (after the `fix:` commits: value sizes
+    above 255 − HashSize were accepted by the pinned tree and made `Seal` panic) -/
+theorem bad_params_fail (hf : HF) (vs declared : Nat) (m : List (Bytes × Bytes)) (kvs : List KV)
+    (h : vs = 0 ∨ vs > 255 ∨ declared = 0) : buildA hf vs declared m kvs = .error .badParams := by
+  unfold buildA; simp [h]
+
+/-- success does not depend on the declared item count beyond the number of buckets it selects:
+    the statement of `build_lookup` has no hypothesis on `declared` (1×..10× the real count included). -/
+theorem build_declared_irrelevant (hf : HF) (vs d1 d2 : Nat) (m : List (Bytes × Bytes)) (kvs : List KV) (ix1 ix2 : IndexA)
+    (h1 : buildA hf vs d1 m kvs = .ok ix1) (h2 : buildA hf vs d2 m kvs = .ok ix2) (kv : KV) (hkv : kv ∈ kvs) :
+    lookupA hf ix1 kv.key = lookupA hf ix2 kv.key := by
+  rw [build_lookup hf vs d1 m kvs ix1 h1 kv hkv, build_lookup hf vs d2 m kvs ix2 h2 kv hkv]
+
+/-! non-vacuity: the hypothesis `buildA … = .ok ix` of the theorems above is satisfiable — a one-key build
+    succeeds for every hash pair, value size 1..255 and declared count (in-kernel); builds of up to 60 000 keys with
+    the real xxhash64 succeed on every correspondence run (`sealed-ok` in the evidence). -/
+theorem allSome_map_some {α β : Type} (f : α → Option β) : ∀ (l : List α), (∀ x ∈ l, ∃ y, f x = some y) →
+    ∃ r, allSome (l.map f) = some r
+  | [], _ => ⟨[], rfl⟩
+  | a :: l, h => by
+    obtain ⟨y, hy⟩ := h a (List.mem_cons_self ..)
+    obtain ⟨r, hr⟩ := allSome_map_some f l (fun x hx => h x (List.mem_cons_of_mem _ hx))
+    exact ⟨y :: r, by simp [allSome, hy, hr]⟩
+
+theorem sealBucket_small (hf : HF) (kvs : List KV) (h : kvs.length ≤ 1) : ∃ b, sealBucket hf kvs = some b := by
+  have hm : ∃ r, mine hf kvs = some r := by
+    unfold mine
+    have : Generated.mineAttempts = 999 + 1 := by decide
+    rw [this, mineFrom]
+    match kvs, h with
+    | [], _ => simp [hashed, adjDup]
+    | [kv], _ => simp [hashed, adjDup]
+  obtain ⟨⟨n, s⟩, hr⟩ := hm
+  exact ⟨⟨n, Eytz.layout s.toArray⟩, by simp [sealBucket, hr]⟩
+
+theorem build_singleton_ok (hf : HF) (vs declared : Nat) (m : List (Bytes × Bytes)) (kv : KV)
+    (hvs : 0 < vs ∧ vs ≤ 255) (hd : 0 < declared) (i : Nat)
+    (hb : hf.bucket kv.key (numBucketsFor declared) = some i) (hi : i < numBucketsFor declared) :
+    ∃ ix, buildA hf vs declared m [kv] = .ok ix := by
+  unfold buildA
+  have h1 : ¬ (vs = 0 ∨ vs > 255 ∨ declared = 0) := by omega
+  simp only [h1, if_false, List.any_cons, List.any_nil, Bool.or_false, hb, Option.isNone_some]
+  have h2 : ¬ (decide (numBucketsFor declared ≤ i)) = true := by simp; omega
+  simp only [h2]
+  obtain ⟨r, hr⟩ := allSome_map_some (fun j => sealBucket hf (bucketKVs hf (numBucketsFor declared) [kv] j))
+    (List.range (numBucketsFor declared)) (by
+      intro j _
+      apply sealBucket_small
+      unfold bucketKVs
+      exact Nat.le_trans (List.length_filter_le _ _) (by simp))
+  exact ⟨⟨vs, numBucketsFor declared, m, r⟩, by simp [hr]⟩
+
+def toyHF : HF := ⟨fun k n => if n = 0 then none else some (k.length % n), fun nonce k => k.length * 7 + nonce⟩
+example : ∃ ix, buildA toyHF 9 25000 [] [⟨[4,5], [8]⟩] = .ok ix ∧ lookupA toyHF ix [4,5] = .found [8] := by
+  obtain ⟨ix, h⟩ := build_singleton_ok toyHF 9 25000 [] ⟨[4,5], [8]⟩ (by omega) (by omega) 2 (by decide) (by decide)
+  exact ⟨ix, h, build_lookup toyHF 9 25000 [] _ ix h ⟨[4,5], [8]⟩ (by simp)⟩
 
 end C04
